@@ -90,7 +90,7 @@ def _field_backend(i, FK):
 
 
 def drive_case(case):
-    from sigma.types import SigmaString
+    from sigma.types import SigmaString, SpecialChars
     from sigma.conversion.state import ConversionState
 
     cfg = _cfg(case["_cfg"])
@@ -111,6 +111,7 @@ def drive_case(case):
     o["plain_parts"] = _res(lambda: _parts(SigmaString(uncps(plain["out"])))) if plain["ok"] else plain
     o["conv"] = []
     o["val"] = []
+    o["val2"] = []
     for k in case["ks"]:
         K = cfg["str"][k - 1]
         esc = chr(K["esc"]) if K["esc"] >= 0 else None
@@ -120,6 +121,9 @@ def drive_case(case):
         )
         b = _str_backend(k, K)
         o["val"].append(_res(lambda: cps(b.convert_value_str(s, ConversionState()))))
+        # the same value as a DERIVED string object (wildcards put around it as the contains modifier does, then
+        # sliced off again as the backend does for its contains operator): same parts, same literal
+        o["val2"].append(_res(lambda: cps(b.convert_value_str((SpecialChars.WILDCARD_MULTI + s + SpecialChars.WILDCARD_MULTI)[1:-1], ConversionState()))))
     # regex form: ground truth is Python's re on every subject <= 3 over the case's alphabet
     alpha = [chr(c) for c in case["subj"]]
     subjects = ["".join(t) for n in range(4) for t in itertools.product(alpha, repeat=n)]
